@@ -22,6 +22,7 @@ ASSUMPTIONS = ['rules are pure (Lin: sum(w_i * n_i) mod k; Aff: (sum(w_i * n_i) 
                'results fit the automaton dtype (store = identity)',
                'float automata carry integer-valued floats',
                'r outside 1..N and timesteps = 0 are outside the property and are not generated',
+               'rule results outside the dtype range: bucket outofrange/* only, not compared with the model (open finding cast-path)',
                'an unsupported option value must be rejected only when at least one step is attempted (the option is '
                'examined inside the loop body); any exception class counts as rejection']
 TRUSTED = ['Python twins Lin1 / Aff1 / Logged1 / PredLt of harness/twins.py']
@@ -51,9 +52,26 @@ MEMO_FORMS = {
     'empty': (lambda: '', '(PStr ""%string)'),
     'truestr': (lambda: 'True', '(PStr "True"%string)'),
     'none': (lambda: None, 'PNone'),
+    # NumPy / subclass values: selected by VALUE too (evolve converts np.bool_ to bool first: fix 751b55b).
+    # The model has no separate constructor for np.bool_: np.True_ / np.False_ are emitted as PBool.
+    'np_true': (lambda: (np.arange(3) > 0).any(), '(PBool true)'),
+    'np_false': (lambda: (np.arange(3) > 5).any(), '(PBool false)'),
+    'np_true_lit': (lambda: np.True_, '(PBool true)'),
+    'np_false_lit': (lambda: np.bool_(0), '(PBool false)'),
+    'np_str': (lambda: np.str_('recursive'), '(PStr "recursive"%string)'),
+    'str_subclass': (lambda: _StrSub('recur' + 'sive'), '(PStr "recursive"%string)'),
+    'np_int1': (lambda: np.int64(1), '(PInt 1)'),                 # an integer, not a boolean: rejected
+    'np_str_capital': (lambda: np.str_('Recursive'), '(PStr "Recursive"%string)'),
 }
 MODE_FORM = {'plain': 'false', 'memo': 'true', 'recursive': 'literal'}
-VALID = {'literal': 'recursive', 'join': 'recursive', 'bytes': 'recursive', 'true': 'True', 'false': 'False'}
+VALID = {'literal': 'recursive', 'join': 'recursive', 'bytes': 'recursive', 'true': 'True', 'false': 'False',
+         'np_true': 'True', 'np_false': 'False', 'np_true_lit': 'True', 'np_false_lit': 'False',
+         'np_str': 'recursive', 'str_subclass': 'recursive'}
+PLAIN_FORMS = ('false', 'np_false', 'np_false_lit')
+
+
+class _StrSub(str):
+    """a str subclass: equal to 'recursive' by value, a different type and object"""
 
 
 # ---------------------------------------------------------------- generators (shared with C09)
@@ -237,7 +255,32 @@ def gen_shared(rng, tier):
         yield {'kind': 'shared/%s/%d' % (flavour, ncalls), 'calls': calls}
 
 
+def gen_outofrange(rng, tier):
+    """OPEN finding 'cast-path' (known_findings.json): pure rules whose results are not representable in the
+    automaton's dtype.  The three modes store through different NumPy casts (array assignment wraps, scalar
+    assignment of a Python int raises), so they are not required to agree with the model (nothing is compared in
+    Coq); oracle() reports when the memoised modes differ from memoize=False, and the driver turns exactly these
+    cases (key 'finding') into KNOWN-FINDING lines."""
+    n = 20 if tier == 'quick' else 120
+    for j in range(n):
+        dtype = ('uint8', 'int8')[j % 2]
+        N = rng.randint(3, 8)
+        r = rng.randint(1, min(N, 2))
+        T = rng.randint(2, 4)
+        row = [rng.randint(1, 4) for _ in range(N)]
+        if j % 4 < 2:       # below the range: sum - b is negative for small sums (and < -128 for int8)
+            rule = {'fam': 'sumoff', 'ws': [1] * (2 * r + 1), 'b': -(7 + 4 * (r - 1)) - (140 if dtype == 'int8' else 0)}
+        else:               # above the range
+            rule = {'fam': 'sumoff', 'ws': [rng.randint(40, 90) for _ in range(2 * r + 1)], 'b': rng.randint(0, 9)}
+        if j == 0:          # the recorded input: uint8 [[1,2,3,4]], n[0]+n[1]+n[2]-7, r=1, T=3
+            dtype, N, r, T, row, rule = 'uint8', 4, 1, 3, [1, 2, 3, 4], {'fam': 'sumoff', 'ws': [1, 1, 1], 'b': -7}
+        calls = [{'rule': rule, 'memo': MODE_FORM[m], 'r': r, 'hist': [row], 'dtype': dtype, 'ts': ['fixed', T]}
+                 for m in ('plain', 'memo', 'recursive')]
+        yield {'kind': 'outofrange/%s' % dtype, 'finding': 'cast-path', 'calls': calls}
+
+
 def generate(rng, tier):
+    yield from gen_outofrange(rng, tier)
     yield from gen_sweep(rng, tier)
     yield from gen_options(rng, tier)
     yield from gen_histories(rng, tier)
@@ -259,12 +302,27 @@ def _to_int_rows(out):
     return [[int(x) for x in row] for row in rows]
 
 
+class SumOff:
+    """sum(w*x) + b as a Python int, no modulus: leaves the dtype range (bucket outofrange/* only; no Coq twin)"""
+    def __init__(self, ws, b):
+        self.ws, self.b = ws, b
+
+    def __call__(self, n, c, t):
+        return sum(w * int(x) for w, x in zip(self.ws, np.asarray(n).ravel())) + self.b
+
+
+def _make_rule(spec):
+    if spec['fam'] == 'sumoff':
+        return SumOff(list(spec['ws']), spec['b'])
+    return make_rule(spec)
+
+
 def run_call(cpl, call, memo_value, rule=None):
     """one evolve call on the implementation; `rule` = an existing Logged1 object to pass again (its log is
     sliced), or None for a fresh one.  Returns (obs, number of rule calls of THIS call, their log)"""
     ca = np.array(call['hist'], dtype=call['dtype'])
     if rule is None:
-        rule = Logged1(make_rule(call['rule']))
+        rule = Logged1(_make_rule(call['rule']))
     start = len(rule.log)
     kind, T = call['ts']
     ts = PredLt(T) if kind == 'lt' else T
@@ -284,13 +342,13 @@ def run_impl(c):
         if 'obj' in call:
             rule = objs.get(call['obj'])
             if rule is None:
-                rule = objs[call['obj']] = Logged1(make_rule(call['rule']))
+                rule = objs[call['obj']] = Logged1(_make_rule(call['rule']))
         o, ncalls, _ = run_call(cpl, call, MEMO_FORMS[call['memo']][0](), rule)
         obs.append({'res': o, 'ncalls': ncalls})
     # the implementation's own unmemoised answers, for the oracle (after the sequence, so that the
     # sequence itself is not disturbed; fresh rule objects)
     for call, ob in zip(c['calls'], obs):
-        if call['memo'] in VALID and call['memo'] != 'false':
+        if call['memo'] in VALID and call['memo'] not in PLAIN_FORMS:
             o, _, _ = run_call(cpl, call, False)
             ob['plain'] = o
     return obs
@@ -310,6 +368,8 @@ def _cobs(o):
 
 
 def to_coq(c, obs):
+    if c.get('finding'):
+        return 'CNotCompared'        # outside the model's assumption (results fit the dtype): oracle() only
     if len(c['calls']) == 1 and not c['kind'].startswith('history'):
         return '(CEvolve %s %s)' % (coq_call(c['calls'][0]), _cobs(obs[0]['res']))
     return '(CHistory %s %s)' % (clist(c['calls'], coq_call), clist([o['res'] for o in obs], _cobs))
@@ -320,6 +380,8 @@ def _cells(call):
 
 
 def nontrivial(c, obs):
+    if c.get('finding'):
+        return False
     hit = False
     for call, ob in zip(c['calls'], obs):
         if ob['res'][0] != 'ok':
@@ -340,6 +402,14 @@ def oracle(c, obs):
     """C03 on the implementation alone: every supported option value gives the array memoize=False gives;
     a string equal to 'recursive' is accepted however it was built; an unsupported value is rejected
     (when a step is attempted)."""
+    if c.get('finding') == 'cast-path':
+        ref = obs[0]['res']         # calls[0] is memoize=False
+        for call, ob in zip(c['calls'][1:], obs[1:]):
+            if ob['res'] != ref:
+                return ('modes differ on out-of-range results: memoize=False -> %s, memoize=%s -> %s' % (
+                    ref[1] if ref[0] == 'exc' else 'array', VALID[call['memo']],
+                    ob['res'][1] if ob['res'][0] == 'exc' else 'another array'))
+        return None
     for i, (call, ob) in enumerate(zip(c['calls'], obs)):
         steps = call['ts'][1] - 1
         if call['memo'] in VALID:
